@@ -297,6 +297,9 @@ def r5(ctx, facts, cfg):
     fe_f = facts.need(TCM + "::for_each_thread_context", cfg)
     for x in fe_f[:1]:
         loops = [n for n in x.walk() if n["k"] == "CXXForRangeStmt" and is_this_field(strip(n.get("range")), "_thread_contexts")]
+        if not loops:
+            from rules.common import other_loop_over
+            other_loop_over(x, "_thread_contexts", "ThreadContextManager::for_each_thread_context")
         early = [e for lp in loops for e in walk(lp.get("body")) if e["k"] in ("BreakStmt", "ReturnStmt", "ContinueStmt")]
         ctx.ob("C20.R5e", "ThreadContextManager::for_each_thread_context:visits-all", bool(loops) and not early and bool(lock_positions(x)),
                "the registry walk visits every context, under the lock", fn=x)
